@@ -1,6 +1,7 @@
 package props
 
 import (
+	"astverif/extrarules"
 	"go/types"
 	"strings"
 
@@ -29,4 +30,8 @@ func c17(c *Ctx) {
 	muxstate.UndoStores(c.P, r, muxstate.RuleVersion, func(f *types.Var) bool { return !strings.HasSuffix(f.Name(), "CC") })
 	muxstate.CounterWidths(c.P, r, map[string]int64{"version": 31}, map[string]int{"version": 2})
 	muxstate.AutoPID(c.P, r, muxstate.RuleAutoPID)
+	// version_number changes iff a stream was added or removed or the PCR PID was set: a refused Add/Remove must not
+	// raise the dirty flag (or change anything else)
+	extrarules.NoEffectBeforeError(c.P, r, muxstate.RuleVersion, []string{"Muxer.AddElementaryStream", "Muxer.RemoveElementaryStream"},
+		"a refused call that raised the dirty flag bumps version_number although the content did not change")
 }
